@@ -33,7 +33,7 @@ type Fault struct {
 	Node  int    `json:"node"`
 	Field string `json:"field"`
 	// Kind: "err" plain error; "group" ggql.Errors with N members; "wgroup" the same wrapped with %w; "ext" *ggql.Error with extensions; "lext" one with a line and column of its own (wrapped when N is odd); "valerr" the value is returned as usual, together with a plain error;
-	// "nth" the Any-list accessor fails at element Index of the list held by (node, field).
+	// "nth" the Any-list accessor fails at element Index of the list held by (node, field); with N == 1 it returns the member together with the error.
 	Kind  string `json:"kind"`
 	N     int    `json:"n,omitempty"`
 	Index int    `json:"index,omitempty"`
@@ -448,6 +448,14 @@ func (x *Exec) complete(v Val, t *TRef, s *Sel, path []interface{}, depth int, n
 		for i, e := range v.L {
 			p := append(append([]interface{}{}, path...), i)
 			if nth != nil && nth.Index == i {
+				if nth.N == 1 {
+					// the accessor hands the member over together with the error: ggql puts that value
+					// into the list as it is (recorded finding, pinned by TestResolveAnyError); what is
+					// at this position is not compared, nothing beneath it is resolved
+					x.out.Errors = append(x.out.Errors, ExpErr{Path: p, Kind: "nthval", Sel: s.ID})
+					outl = append(outl, BorderlineMark{})
+					continue
+				}
 				x.out.Errors = append(x.out.Errors, ExpErr{Path: p, Kind: "nth", Sel: s.ID})
 				outl = append(outl, nil)
 				continue
